@@ -12,14 +12,16 @@ FUZZ = {"props": ["astar", "bfs"], "quick": [2, 800], "thorough": [8, 30000]}
 RULE = ("Directed multigraphs (1-9 nodes, integer edge costs 0..5 incl. zero-cost edges, self-loops, parallel edges, "
         "dead ends, 0-3 goals possibly unreachable) x representation of the single-outcome transition / initial "
         "distribution (next_state, DeterministicDistribution, 1-entry DictDistribution, 1-element "
-        "UniformDistribution, DeterministicShortestPathProblem subclass) x heuristic (zero, exact, relaxed-goal-set distance, capped / shifted exact, dyadic fraction "
+        "UniformDistribution, DeterministicShortestPathProblem subclass) x heuristic (zero, exact, relaxed-goal-set distance, capped / shifted exact, dyadic and non-dyadic fraction "
         "of exact; consistent by construction) x tie_breaking x seed x randomize_action_order. Oracle: own Dijkstra "
         "/ BFS and a path validator. Non-trivial: no goal reachable from a start with >=2 reachable nodes, or a "
         "reachable goal at distance >0 with a strictly sub-optimal alternative edge or a zero-cost edge on a "
         "shortest path; distinct by spec hash."
         ' Also: consistent heuristics not proportional to the exact one (relaxed goal sets, capped / shifted exact), free moves, origin-centred (hash-colliding) integer and coordinate labels.'
         ' Both problems converted with from_mdp first, planning on the earlier conversion.')
-ASSUMPTIONS = ["integer costs and dyadic heuristic scalings keep A*'s float arithmetic exact"]
+ASSUMPTIONS = ["integer costs and dyadic heuristic scalings keep A*'s float arithmetic exact; with the non-dyadic scalings a (0.1, 0.3, "
+               "0.7, 0.9) x exact, an edge of cost c >= 1 raises the estimated total by >= c (1 - a) >= 0.1 and a free edge either joins "
+               "states of equal cost-to-go (bit-identical sums) or raises it by >= a, so one-ulp rounding never decides a comparison"]
 
 
 @st.composite
@@ -71,7 +73,9 @@ def astar_cases(draw, tier="quick"):
     seed = None
     if tb == "random" or rao:
         seed = draw(st.one_of(st.sampled_from([0, 1, 2 ** 31 - 1]), st.integers(0, 10 ** 6)))
-    hk = draw(st.sampled_from(["zero", "exact", "0.25", "0.5", "0.75", "relaxed", "relaxed", "cap", "minus"]))
+    # (0.3 / 0.1 / 0.7 / 0.9: scalings whose products are not exact in binary - with integer costs every comparison A* makes
+    # is still either between bit-identical sums or decided by a margin >= 0.1, see ASSUMPTIONS)
+    hk = draw(st.sampled_from(["zero", "exact", "0.25", "0.5", "0.75", "relaxed", "relaxed", "cap", "minus", "0.3", "0.1", "0.7", "0.9"]))
     if hk == "relaxed":
         hk = "relaxed:" + ",".join(str(u) for u in draw(st.lists(st.integers(0, g["n"] - 1), min_size=1, max_size=max(1, g["n"] // 3), unique=True)))
     elif hk in ("cap", "minus"):
